@@ -411,6 +411,8 @@ func c06CheckPair(c *eng.Ctx, fn *ssa.Function, iface *types.Interface, q, b ssa
 func c06(c *eng.Ctx) {
 	c.Rule("R5", "one bucket per schema name: the per-schema limiter table is keyed by the schema name verbatim (two schemas whose names differ, e.g. only by case, never share a bucket)", 3)
 	checkSchemaTableKeys(c, "R5")
+	c.Rule("R6", "a changed rate is always applied: in localWrapper.Sync every path from the edge 'schema type is TokenBucket' to an exit passes a Resize call (no test on the new values skips it)", 1)
+	c05ResizeApplied(c, "R6", "TokenBucket")
 	iface := fcIface(c)
 	if iface == nil {
 		return
